@@ -92,7 +92,20 @@ def run_case(case):
                 failures.append(fail(sub, "extra", (n, sorted(gs - exp, key=repr)[:3])))
             if exp - gs:
                 failures.append(fail(sub, "missing", (n, sorted(exp - gs, key=repr)[:3])))
+    # the same questions again, after the normal form and the other caches have been filled
+    with guard(failures, "second_pass"):
+        for name, got, exp in (("is_empty", g.is_empty(), R.is_empty()), ("is_finite", g.is_finite(), finite),
+                               ("bool", bool(g), not R.is_empty()),
+                               ("get_generating_symbols", {key(s) for s in g.get_generating_symbols()},
+                                {('V', v) for v in R.generating()} | {('T', t) for t in R.terms}),
+                               ("get_nullable_symbols", {key(s) for s in g.get_nullable_symbols()},
+                                {('V', v) for v in R.nullable()}),
+                               ("get_reachable_symbols", {key(s) for s in g.get_reachable_symbols()}, R.reachable())):
+            if got != exp:
+                failures.append(fail("second_pass." + name, "wrong_after_other_queries"))
     labels, special = grammar_labels(R, d)
+    if R.language_upto(3) == {()} and finite:
+        labels.append("epsilon_only_language")
     labels.append("finite" if finite else "infinite")
     if R.is_empty():
         labels.append("empty_language")
